@@ -303,6 +303,7 @@ def run(ctx):
         for rq, (rec, chead) in zip(reqs, res):
             total += 1; bodies += len(rq["body"]) > 0
             key = "%s/%s/%s" % (rq["kind"], rq["framing"], "tempfile" if len(rq["body"]) > 65536 else "mem"); dist[key] = dist.get(key, 0) + 1
+            if rq.get("h2"): dist["over-http2"] = dist.get("over-http2", 0) + 1
             why = judge_proxy(rq, rec) if rq["kind"] == "px" else judge_cgi(rq, rec)
             if why and rec is None and chead.startswith(b"HTTP/1.1 411") and rq["framing"] == "chunked":
                 why = None       # lighttpd refuses (411) a chunked body it would have to stream to a backend that needs the length first: nothing was forwarded
